@@ -82,13 +82,47 @@ func c20Pre(r *RNG, kind string, longLen int) []byte {
 	return nil
 }
 
+// fault scripts for a CARv1 stream: the two write calls of the constructor (header varint, header) never
+// fail (a failed constructor is retried by the next Put on the same half-written stream, which the
+// model does not describe); call 2,3,4 = varint, CID, data of the first accepted block, 5.. = the next
+func c20FaultScripts() [][]int {
+	at := func(i, k int) []int {
+		f := make([]int, i+1)
+		for j := range f {
+			f[j] = -1
+		}
+		f[i] = k
+		return f
+	}
+	return [][]int{at(2, 0), at(3, 5), at(4, 0), at(7, 1)}
+}
+
 func emitC20(c *Ctx, cfg c20Cfg, roots []cid.Cid, ops VL, preKind string, pre []byte) {
+	emitC20F(c, cfg, roots, ops, preKind, pre, nil)
+}
+
+func emitC20F(c *Ctx, cfg c20Cfg, roots []cid.Cid, ops VL, preKind string, pre []byte, faults []int) {
 	if cfg.target != 0 {
 		preKind, pre = "n/a-stream", nil
+	} else {
+		faults = nil
 	}
 	c.Count("path-before:" + preKind)
-	in := deferredInput(cfg.target, cfg.v1Given, cfg.o, roots, ops, pre)
-	obs := runDeferredImpl(c.Work, cfg.target, cfg.v1Given, cfg.o, roots, ops, pre)
+	if len(faults) > 0 {
+		c.Count("faults:script")
+	}
+	in := deferredInput(cfg.target, cfg.v1Given, cfg.o, roots, ops, pre, faults)
+	obs := runDeferredImpl(c.Work, cfg.target, cfg.v1Given, cfg.o, roots, ops, pre, faults)
+	// did a Close return an error other than "closed" (= its Finalize failed)?
+	for i, opv := range ops {
+		if string(opv.(VL)[0].(VT)) == "close" {
+			out := obs.(VL)[i].(VL)[0].(VL)
+			if string(out[0].(VT)) == "err" && string(out[1].(VT)) != "closed" {
+				c.Count("faults:close-whose-finalize-failed")
+				break
+			}
+		}
+	}
 	// non-trivial: a callback was registered, a Put ran before a Close and something came after it
 	nOn, nPut, closeAt, firstPut := 0, 0, -1, -1
 	for i, opv := range ops {
@@ -121,6 +155,10 @@ func emitC20(c *Ctx, cfg c20Cfg, roots []cid.Cid, ops VL, preKind string, pre []
 // preMode: -1 = rotate through the four kinds of pre-existing file history by history, otherwise the
 // index of the kind to use for every history
 func c20Exhaustive(c *Ctx, r *RNG, cfg c20Cfg, roots []cid.Cid, opset []Val, n int, preMode int) {
+	c20ExhaustiveF(c, r, cfg, roots, opset, n, preMode, nil)
+}
+
+func c20ExhaustiveF(c *Ctx, r *RNG, cfg c20Cfg, roots []cid.Cid, opset []Val, n int, preMode int, faults []int) {
 	idx := make([]int, n)
 	count := 0
 	for {
@@ -133,7 +171,7 @@ func c20Exhaustive(c *Ctx, r *RNG, cfg c20Cfg, roots []cid.Cid, opset []Val, n i
 			kind = c20PreKinds[preMode]
 		}
 		count++
-		emitC20(c, cfg, roots, ops, kind, c20Pre(r, kind, 1200))
+		emitC20F(c, cfg, roots, ops, kind, c20Pre(r, kind, 1200), faults)
 		c.Count(fmt.Sprintf("exhaustive:len%d", n))
 		i := n - 1
 		for i >= 0 {
@@ -169,6 +207,13 @@ func c20Example(c *Ctx) {
 	}
 	c.Count("history:coq-example")
 	emitC20(c, c20Cfg{target: 1, o: defaultWOpts}, []cid.Cid{k1}, ops, "absent", nil)
+	// a stream that breaks 5 bytes into the CID of the first block: Put fails, Close's Finalize fails, and
+	// the writer is closed all the same (Example C20_example_failed_finalize)
+	fops := VL{
+		VL{VT("onput"), VN(1), VN(0)}, VL{VT("put"), k(k1), VB([]byte{1, 2})}, VL{VT("put"), k(k3), VB([]byte{3})},
+		VL{VT("close")}, VL{VT("close")}, VL{VT("put"), k(k1), VB([]byte{1})}, VL{VT("has"), k(k1)},
+	}
+	emitC20F(c, c20Cfg{target: 1, o: defaultWOpts}, []cid.Cid{k1}, fops, "absent", nil, []int{-1, -1, -1, 5})
 	// the same history on a path where a 500-byte file already sits (Example C20_example_overwrites_longer_file)
 	emitC20(c, c20Cfg{target: 0, o: defaultWOpts}, []cid.Cid{k1}, ops, "longer", make([]byte, 500))
 }
@@ -193,6 +238,14 @@ func init() {
 				if cfg.target == 0 {
 					for pm := range c20PreKinds {
 						c20Exhaustive(c, r, cfg, roots, opset, n-2, pm)
+					}
+				}
+				// ... and, on the CARv1 stream configurations, every history one step shorter runs against
+				// four fault scripts (a write of the first or second block fails: nothing / part / all of
+				// the call's bytes get out), so that Puts and Close's Finalize fail
+				if cfg.target == 1 && !(cfg.v1Given && !cfg.o.v1) {
+					for _, fs := range c20FaultScripts() {
+						c20ExhaustiveF(c, r, cfg, roots, opset, n-1, -1, fs)
 					}
 				}
 			}
@@ -233,7 +286,20 @@ func init() {
 			}
 			c.Count("history:random")
 			kind := pick(r, c20PreKinds)
-			emitC20(c, cfg, roots, ops, kind, c20Pre(r, kind, 2500+int(o.dpad)+int(o.ipad)))
+			var faults []int
+			if cfg.target == 1 && cfg.o.v1 || cfg.target == 1 && !cfg.v1Given {
+				if r.Chance(50) {
+					faults = []int{-1, -1}
+					for j := 0; j < 3+r.Intn(25); j++ {
+						if r.Chance(15) {
+							faults = append(faults, r.Intn(12))
+						} else {
+							faults = append(faults, -1)
+						}
+					}
+				}
+			}
+			emitC20F(c, cfg, roots, ops, kind, c20Pre(r, kind, 2500+int(o.dpad)+int(o.ipad)), faults)
 		}
 	})
 }
